@@ -1,7 +1,9 @@
 From Coq Require Import List Arith Bool Lia.
 Import ListNotations.
 
-(* Two paths matter: the checkpoint P and its temporary T.  Content is an abstract token list:
+(* Model of the file-system protocol of Sampler.write / write_shell_update (sampler.py 1245-1377) as seen through
+   system calls; definitions only, proofs in CrashProofs.v.
+   Two paths matter: the checkpoint P and its temporary T.  Content is an abstract token list:
    what has been written since creation / truncation / copy. *)
 Inductive path := P | T.
 Definition path_eqb a b := match a, b with P, P | T, T => true | _, _ => false end.
@@ -72,58 +74,3 @@ Fixpoint completed (f : fs) (tr : list op) : list content :=
               end
   end.
 
-Lemma exec_P_unchanged f o f' : touches_P_badly o = false -> (forall x, o <> Rename T x \/ x <> P) ->
-  exec f o = Some f' -> fP f' = fP f.
-Proof.
-  intros Hb Hr E. destruct o as [p|p|p|p t|p|p|a b|]; try destruct p; try destruct a; try destruct b; simpl in *; try discriminate;
-    repeat match type of E with
-    | (match ?x with _ => _ end) = _ => destruct x eqn:?; try discriminate
-    | (if ?x then _ else _) = _ => destruct x eqn:?; try discriminate
-    end; inversion E; subst; simpl; auto.
-  destruct (Hr P) as [H|H]; congruence.
-Qed.
-
-Lemma completed_cons f o r f1 : exec f o = Some f1 ->
-  completed f (o :: r) = match o, fP f1 with Rename T P, Some c => c :: completed f1 r | _, _ => completed f1 r end.
-Proof. intros E. cbn [completed]. rewrite E. reflexivity. Qed.
-
-(* crash = any prefix.  Under an atomic trace, whatever prefix survives, P holds its initial content or one of the completed ones *)
-Theorem C06_atomic : forall tr topen f k f',
-  atomic_go topen tr = true -> run f (firstn k tr) = Some f' ->
-  fP f' = fP f \/ exists c, fP f' = Some c /\ In c (completed f tr).
-Proof.
-  induction tr as [|o r IH]; intros topen f k f' Ha Hr.
-  - rewrite firstn_nil in Hr. inversion Hr; subst. now left.
-  - destruct k as [|k]; [inversion Hr; subst; now left|].
-    simpl in Hr. destruct (exec f o) as [f1|] eqn:E; [|discriminate].
-    simpl in Ha. destruct (touches_P_badly o) eqn:Hb; [discriminate|].
-    assert (Hcase : (exists b, o = Rename T P /\ atomic_go b r = true) \/
-                    ((forall x, o <> Rename T x \/ x <> P) /\ exists b, atomic_go b r = true)).
-    { destruct o as [p|p|p|p t|p|p|a b|]; try destruct p; try destruct a; try destruct b; simpl in *; try discriminate;
-        try (right; split; [intros x; left; discriminate|eexists; eassumption]).
-      left. destruct topen; [discriminate|]. eexists; split; eauto. }
-    rewrite (completed_cons _ _ r _ E).
-    destruct Hcase as [(b & -> & Hb')|(Hn & b & Hb')].
-    + destruct (fP f1) as [c1|] eqn:E1.
-      * destruct (IH _ _ _ _ Hb' Hr) as [H|(c & H1 & H2)].
-        -- right. exists c1. split; [congruence|now left].
-        -- right. exists c. split; auto. now right.
-      * exfalso. cbn in E. destruct (fT f); [inversion E; subst; discriminate|discriminate].
-    + pose proof (exec_P_unchanged _ _ _ Hb Hn E) as HP.
-      assert (Hsame : match o, fP f1 with Rename T P, Some c => c :: completed f1 r | _, _ => completed f1 r end = completed f1 r).
-      { destruct o as [p|p|p|p t|p|p|a b0|]; auto. destruct a, b0; auto. destruct (Hn P) as [H|H]; congruence. }
-      rewrite Hsame.
-      destruct (IH _ _ _ _ Hb' Hr) as [H|(c & H1 & H2)].
-      * left. congruence.
-      * right. exists c. split; auto.
-Qed.
-
-(* the protocol of the unchanged code is not atomic: after unlink the checkpoint is gone *)
-Example C06_inplace_refuted : exists tr k f', 
-  run (mkFs (Some [1]) None false false) (firstn k tr) = Some f' /\ fP f' = None /\
-  tr = [Unlink P; CreatExcl P; Write P 2; Close P].
-Proof. exists [Unlink P; CreatExcl P; Write P 2; Close P], 1, (mkFs None None false false). repeat split. Qed.
-Example C06_update_refuted : exists tr k f',
-  run (mkFs (Some [1]) None false false) (firstn k tr) = Some f' /\ fP f' = Some [1; 2] /\
-  tr = [OpenRW P; Write P 2; Write P 3; Close P].      (* neither the old [1] nor the new [1;2;3] *)
-Proof. exists [OpenRW P; Write P 2; Write P 3; Close P], 2, (mkFs (Some [1; 2]) None true false). repeat split. Qed.
